@@ -14,9 +14,6 @@ Proof. apply forallb_forall. vm_compute. reflexivity. Qed.
 Lemma pass_present : forall c, In c allowed_pass -> existsb (site_eqb c) c10_uses = true.
 Proof. apply forallb_forall. vm_compute. reflexivity. Qed.
 
-Lemma no_ambient_state : c10_ambient = allowed_ambient.
-Proof. vm_compute. reflexivity. Qed.
-
 Lemma scan_scope : c10_excluded = allowed_excluded /\ (40 <= c10_file_count)%nat.
 Proof. split; [vm_compute; reflexivity | apply PeanoNat.Nat.leb_le; vm_compute; reflexivity]. Qed.
 
